@@ -142,6 +142,61 @@ def _decorator_names(node: ast.FunctionDef | ast.AsyncFunctionDef) -> list[str]:
     return out
 
 
+class _Canon(ast.NodeTransformer):
+    """Canonical view of the source used by every rule: statements that cannot influence behaviour are dropped
+    (docstrings, bare `pass` next to other statements, calls on the module logger whose arguments contain no await / walrus)
+    and `not (x is None)` / `not (a == b)` are rewritten to `x is not None` / `a != b`."""
+
+    @staticmethod
+    def _is_log(st: ast.stmt) -> bool:
+        if not (isinstance(st, ast.Expr) and isinstance(st.value, ast.Call)):
+            return False
+        f = st.value.func
+        if not (isinstance(f, ast.Attribute) and isinstance(f.value, ast.Name) and f.value.id == "logger"):
+            return False
+        return not any(isinstance(x, (ast.Await, ast.NamedExpr, ast.Yield)) for x in ast.walk(st.value))
+
+    def _clean(self, body: list[ast.stmt]) -> list[ast.stmt]:
+        out = []
+        for i, st in enumerate(body):
+            if isinstance(st, ast.Expr) and isinstance(st.value, ast.Constant) and isinstance(st.value.value, str):
+                continue
+            if self._is_log(st) or isinstance(st, ast.Pass):
+                continue
+            out.append(st)
+        if not out:
+            p = ast.Pass()
+            if body:
+                ast.copy_location(p, body[0])
+            out = [p]
+        return out
+
+    def generic_visit(self, node: ast.AST) -> ast.AST:
+        super().generic_visit(node)
+        for fld in ("body", "orelse", "finalbody"):
+            val = getattr(node, fld, None)
+            if isinstance(val, list) and val and isinstance(val[0], ast.stmt):
+                if fld != "body" and not val:
+                    continue
+                cleaned = self._clean(val)
+                if fld in ("orelse", "finalbody") and len(cleaned) == 1 and isinstance(cleaned[0], ast.Pass) and not any(
+                        not (self._is_log(x) or isinstance(x, ast.Pass)) for x in val):
+                    # an else/finally block that only logged: keep a pass so the structure stays visible
+                    pass
+                setattr(node, fld, cleaned)
+        return node
+
+    def visit_UnaryOp(self, node: ast.UnaryOp) -> ast.AST:
+        self.generic_visit(node)
+        if isinstance(node.op, ast.Not) and isinstance(node.operand, ast.Compare) and len(node.operand.ops) == 1:
+            flip = {ast.Is: ast.IsNot, ast.IsNot: ast.Is, ast.Eq: ast.NotEq, ast.NotEq: ast.Eq, ast.In: ast.NotIn, ast.NotIn: ast.In}
+            op = node.operand.ops[0]
+            if type(op) in flip:
+                new = ast.Compare(left=node.operand.left, ops=[flip[type(op)]()], comparators=node.operand.comparators)
+                return ast.copy_location(new, node)
+        return node
+
+
 class Model:
     def __init__(self, root: Path | None = None, package: str = "gallia") -> None:
         self.root = root or repo_root()
@@ -168,7 +223,10 @@ class Model:
                 tree = ast.parse(source, filename=str(path))
             except SyntaxError as e:  # the variant does not compile: not our business
                 raise AnalysisError(f"cannot parse {path}: {e}") from e
+            raw = ast.parse(source, filename=str(path))
+            tree = ast.fix_missing_locations(_Canon().visit(tree))
             mod = ModuleInfo(name, path, str(path.relative_to(self.root)), source, tree)
+            mod.raw_tree = raw  # type: ignore[attr-defined]
             self.modules[name] = mod
         for mod in self.modules.values():
             self._index_module(mod)
@@ -626,6 +684,70 @@ class Model:
                     if types:
                         out[tgt.attr] = types
         return out
+
+    def raw_function(self, f: FuncInfo) -> ast.FunctionDef | ast.AsyncFunctionDef:
+        """The same function in the un-canonicalised tree (logging statements and docstrings kept)."""
+        raw = getattr(f.module, "raw_tree")
+        for n in ast.walk(raw):
+            if isinstance(n, (ast.FunctionDef, ast.AsyncFunctionDef)) and n.name == f.name and n.lineno == f.node.lineno:
+                return n
+        raise AnalysisError(f"raw tree of {f.qualname} not found")
+
+    # ------------------------------------------------------------ rename-insensitive matching
+    _BUILTINS = set(dir(__import__("builtins")))
+
+    def local_names(self, f: FuncInfo) -> set[str]:
+        node = f.node
+        a = node.args
+        params = {x.arg for x in a.posonlyargs + a.args + a.kwonlyargs}
+        if a.vararg:
+            params.add(a.vararg.arg)
+        if a.kwarg:
+            params.add(a.kwarg.arg)
+        stored: set[str] = set()
+        for n in ast.walk(node):
+            if isinstance(n, ast.Name) and isinstance(n.ctx, ast.Store):
+                stored.add(n.id)
+            if isinstance(n, ast.ExceptHandler) and n.name:
+                stored.add(n.name)
+            if isinstance(n, ast.MatchAs) and n.name:
+                stored.add(n.name)
+        return stored - params
+
+    def mtext(self, f: FuncInfo, node: ast.AST | None = None) -> str:
+        """Text of node (default: whole function) with every local variable replaced by `_L` (parameters are kept)."""
+        locs = self.local_names(f)
+        import copy as _copy
+        n2 = _copy.deepcopy(node if node is not None else f.node)
+        for x in ast.walk(n2):
+            if isinstance(x, ast.Name) and x.id in locs:
+                x.id = "_L"
+            if isinstance(x, ast.ExceptHandler) and x.name in locs:
+                x.name = "_L"
+            if isinstance(x, ast.MatchAs) and x.name in locs:
+                x.name = "_L"
+        return ast.unparse(n2)
+
+    def mpat(self, f: FuncInfo, text: str) -> str:
+        """Mask an expected snippet (written with today's names) the same way: every name that is neither a parameter of f,
+        nor a module-level name / import / builtin is a local."""
+        tree = ast.parse(text)
+        mod = f.module
+        a = f.node.args
+        keep = {x.arg for x in a.posonlyargs + a.args + a.kwonlyargs} | {"self", "cls"} | self._BUILTINS
+        keep |= set(mod.imports) | set(mod.classes) | set(mod.functions) | set(mod.assigns)
+        for x in ast.walk(tree):
+            if isinstance(x, ast.Name) and x.id not in keep:
+                x.id = "_L"
+            if isinstance(x, ast.ExceptHandler) and x.name:
+                x.name = "_L"
+        return ast.unparse(tree)
+
+    def has(self, f: FuncInfo, text: str, node: ast.AST | None = None) -> bool:
+        return self.mpat(f, text) in self.mtext(f, node)
+
+    def eqm(self, f: FuncInfo, node: ast.AST, text: str) -> bool:
+        return self.mtext(f, node) == self.mpat(f, text)
 
     # ------------------------------------------------------------ iteration
     def functions(self) -> Iterator[FuncInfo]:
